@@ -171,7 +171,7 @@ Definition run_wother (out : bool) (arg : sx) : sx :=
   end.
 
 (* ---- builders and layers ---- *)
-From PTA Require Import Builder Layer.
+From PTA Require Import Builder Layer WLayer.
 
 Definition as_rcall (s : sx) : option (@rcall N) :=
   match s with
@@ -281,6 +281,20 @@ Definition run_layer_histories (arg : sx) : sx :=
   | _ => sx_err
   end.
 
+(* fn 35: the same, the graph queries run by the worklist loops; out of fuel is answered [A 9] *)
+Definition run_wlayer_histories (arg : sx) : sx :=
+  match arg with
+  | L [g; t; hs] =>
+    match as_graph g, as_rtable t, as_list (as_list as_lrcall) hs with
+    | Some g, Some t, Some hs => L (map (fun h => match w_run_layer_rule ceq (rmatch_of t) g h with
+                                                  | Some o => of_loutcome o
+                                                  | None => L [A 9]
+                                                  end) hs)
+    | _, _, _ => sx_err
+    end
+  | _ => sx_err
+  end.
+
 (* ---- scanning ---- *)
 From PTA Require Import Scan.
 
@@ -339,7 +353,7 @@ Definition run_scan (arg : sx) : sx :=
   end.
 
 (* ---- diagram rules ---- *)
-From PTA Require Import Diagram.
+From PTA Require Import Diagram WDiagram.
 (* fn 22: (graph only (base?) mods rel) *)
 Definition run_diagram (arg : sx) : sx :=
   match arg with
@@ -347,6 +361,21 @@ Definition run_diagram (arg : sx) : sx :=
     match as_graph g, as_bool on, as_opt as_name base, as_list as_name ms, as_list as_edge rel with
     | Some g, Some on, Some base, Some ms, Some rel =>
       of_outcome (diagram_apply ceq (fun _ _ => false) g on base {| pd_mods := ms; pd_rel := rel |})
+    | _, _, _, _, _ => sx_err
+    end
+  | _ => sx_err
+  end.
+
+(* fn 36: the same, every generated rule evaluated over the worklist loops; out of fuel is answered [A 9] *)
+Definition run_wdiagram (arg : sx) : sx :=
+  match arg with
+  | L [g; on; base; ms; rel] =>
+    match as_graph g, as_bool on, as_opt as_name base, as_list as_name ms, as_list as_edge rel with
+    | Some g, Some on, Some base, Some ms, Some rel =>
+      match w_diagram_apply ceq (fun _ _ => false) g on base {| pd_mods := ms; pd_rel := rel |} with
+      | Some o => of_outcome o
+      | None => L [A 9]
+      end
     | _, _, _, _, _ => sx_err
     end
   | _ => sx_err
